@@ -334,7 +334,9 @@ func checkEOFFacts(p *Prog, facts []condFact, fattr tok, wantTrue bool) (string,
 		}
 		isEnd := func(v ssa.Value) bool {
 			os := fl.Origins(v)
-			hasOff := hasOrigin(os, func(o Origin) bool { return o.Kind == "outparam" && strings.HasPrefix(o.Desc, "outparam:encoding/binary.Read") })
+			hasOff := hasOrigin(os, func(o Origin) bool {
+				return o.Kind == "outparam" && strings.HasPrefix(o.Desc, "outparam:encoding/binary.Read")
+			})
 			hasLen := hasOrigin(os, func(o Origin) bool { return o.Kind == "call" && strings.Contains(o.Desc, "Read") }) || hasOrigin(os, func(o Origin) bool { return o.Kind == "param" })
 			_, isAdd := unwrap(v).(*ssa.BinOp)
 			return hasOff && hasLen && isAdd
